@@ -528,7 +528,7 @@ class C10(Prop):
             "systematic: 1-3 requests (distinct / duplicate names) x every answer order of every subset x every ending (exit ok/failed, "
             "unknown name, already-answered, oversize, 6 garbage bodies, stdout closed, output cut after every byte) x 3 interleaving "
             "shapes (client reads all then answers / answers as early as possible / answers while the request's write is in flight) "
-            "+ a late request; exhaustive: every forceable script of <= D free choices over a small alphabet (D=6 quick, 8 thorough); "
+            "+ a late request; exhaustive: every forceable script of <= D free choices over a small alphabet (2 requests: D=7 quick, 8 thorough; 3 requests: D=6 / 7); "
             "random walks up to 40 actions with partial frames, several frames per write, parked senders. compared after EVERY action: "
             "isRunning(); at the end: per request the sendRequest result class and the callback invocations (count, name, own "
             "response marker or error class), reader done, waitForResponses result class. extra: free-running -race stress")
@@ -569,8 +569,9 @@ class C10(Prop):
     def generate(self, rng, tier):
         quick = tier == "quick"
         yield from systematic(quick)
-        yield from exhaustive(6 if quick else 8, 2)
-        for _ in range(1500 if quick else 40000):
+        yield from exhaustive(7 if quick else 8, 2)
+        yield from exhaustive(6 if quick else 7, 3)
+        for _ in range(6000 if quick else 60000):
             yield random_walk(rng, rng.randint(8, 40), rng.randint(1, 6))
 
     def _race_run(self, ctx, testname, rounds, timeout):
